@@ -12,7 +12,21 @@ Proof. exact readying_completion_wakes_latest_waker_holds. Qed.
 Theorem C03_queue_full_waiter_is_parked : queue_full_waiter_is_parked.
 Proof. exact queue_full_waiter_is_parked_holds. Qed.
 
+(** What the repair of H15 provides: every ring poll ends by waking parked wakers for the slots
+    free at that moment, oldest first; the oldest parked waker is woken by any ring poll that
+    ends with room in the queue, even if no operation ever completes. *)
+Theorem C03_end_of_poll_wakes_parked : end_of_poll_wakes_parked.
+Proof. exact end_of_poll_wakes_parked_holds. Qed.
+
+(** The stronger "a waker stays parked only while the queue is full" does not hold: with more
+    parked wakers than free slots the younger ones wait for the next poll (witness inside). *)
+Theorem C03_parked_only_if_queue_full_refuted : ~ parked_only_if_queue_full.
+Proof. exact parked_only_if_queue_full_refuted. Qed.
+
 Check C03_readying_completion_wakes_latest_waker : readying_completion_wakes_latest_waker.
 Check C03_queue_full_waiter_is_parked : queue_full_waiter_is_parked.
 Print Assumptions C03_readying_completion_wakes_latest_waker.
+Check C03_end_of_poll_wakes_parked : end_of_poll_wakes_parked.
 Print Assumptions C03_queue_full_waiter_is_parked.
+Print Assumptions C03_end_of_poll_wakes_parked.
+Print Assumptions C03_parked_only_if_queue_full_refuted.
